@@ -612,6 +612,8 @@ func (it *interp) eval(e *gast.Expr, pos int, st *state, fr frame, h *handler, r
 			}
 		case 4:
 			v = e.Code.ID
+		case 5:
+			v = "glog:" + it.glog
 		}
 		return true, end, v, nst
 
